@@ -14,7 +14,6 @@ import (
 	"github.com/polynetwork/poly/common"
 	"github.com/polynetwork/poly/consensus/vbft"
 	vconfig "github.com/polynetwork/poly/consensus/vbft/config"
-	"github.com/polynetwork/poly/core/signature"
 	"github.com/polynetwork/poly/core/types"
 	ptypes "github.com/polynetwork/poly/p2pserver/message/types"
 	"pgregory.net/rapid"
@@ -289,7 +288,7 @@ func histMutate(c c44Case, m vbft.ConsensusMsg, other int) int {
 	}
 	seal := func(b *types.Block) {
 		// like addSignaturesToBlockLocked: fresh slices assigned to the header
-		h := b.Hash()
+		h := refHeaderHash(b.Header)
 		bk := []keypair.PublicKey{b.Header.Bookkeepers[0]}
 		sd := [][]byte{b.Header.SigData[0]}
 		for i := 0; i < 1+int(c.HistArg%3); i++ {
@@ -327,7 +326,7 @@ func histMutate(c c44Case, m vbft.ConsensusMsg, other int) int {
 		blk.EmptyBlock = nil
 		return 0
 	case "resign-other":
-		blk.Block.Header.SigData = [][]byte{signHash(other, blk.Block.Hash())}
+		blk.Block.Header.SigData = [][]byte{signHash(other, refHeaderHash(blk.Block.Header))}
 		blk.Block.Header.Bookkeepers = []keypair.PublicKey{pubOf(other)}
 		return -1
 	case "info":
@@ -365,7 +364,7 @@ func buildBlock(s *blkSpec, signer int) *vbft.Block {
 	full := mkTypesBlock(s.Hdr, info, txs, signer)
 	for _, e := range s.ExtraBk {
 		full.Header.Bookkeepers = append(full.Header.Bookkeepers, pubOf(e))
-		full.Header.SigData = append(full.Header.SigData, signHash(e, full.Hash()))
+		full.Header.SigData = append(full.Header.SigData, signHash(e, refHeaderHash(full.Header)))
 	}
 	b := &vbft.Block{Block: full, Info: info}
 	if s.HasEmpty {
@@ -751,6 +750,9 @@ func runC44(ctx *ev.Ctx, c c44Case) {
 		}
 		if c.Kind == "proposal" && after != before {
 			verr := verifyMsg(ctx, m4, signerPk)
+			if want, _ := refVerify(m4, signerPk); (verr == nil) != want {
+				ctx.Failf("proposal changed in place (%s): Verify says %v, the reference digest says covered=%v", c.Hist, verr, want)
+			}
 			if expect > 0 && verr != nil {
 				ctx.Failf("proposal sealed in place (%s) no longer verifies under its proposer's key after the wire: %v", c.Hist, verr)
 			}
@@ -767,15 +769,8 @@ func runC44(ctx *ev.Ctx, c c44Case) {
 	pay := &ptypes.ConsensusPayload{Version: c.PVersion, PrevHash: h256(c.PPrev), Height: c.PHeight, BookkeeperIndex: c.PBkIdx, Timestamp: c.PTime,
 		Data: b1, Owner: signerPk, PeerId: c.PPeerID}
 	{
-		buf := new(bytes.Buffer)
-		if err := pay.SerializeUnsigned(buf); err != nil {
-			ctx.Failf("ConsensusPayload.SerializeUnsigned: %v", err)
-		}
-		sg, err := signature.Sign(acct(c.Signer), buf.Bytes())
-		if err != nil {
-			panic(err)
-		}
-		pay.Signature = sg
+		// signed over the harness's OWN rendering of the unsigned content (refPayloadUnsigned)
+		pay.Signature = signBytes(c.Signer, refPayloadUnsigned(pay))
 	}
 	w1 := payloadWire(pay)
 	pay2, err := payloadFromWire(ctx, w1)
@@ -817,7 +812,10 @@ func runC44(ctx *ev.Ctx, c c44Case) {
 	hasInnerVerify := c.Kind == "proposal" || c.Kind == "endorse" || c.Kind == "commit"
 	if hasInnerVerify {
 		if err := verifyMsg(ctx, m2, signerPk); err != nil {
-			ctx.Failf("the untouched %s does not verify under its signer's key: %v", c.Kind, err)
+			ctx.Failf("the untouched %s, signed over the reference digest, does not verify under its signer's key: %v", c.Kind, err)
+		}
+		if want, _ := refVerify(m2, signerPk); !want {
+			ctx.Failf("harness: the untouched %s is not valid by the reference", c.Kind)
 		}
 	}
 
@@ -866,6 +864,11 @@ func runC44(ctx *ev.Ctx, c c44Case) {
 			return
 		}
 		verr := verifyPayload(ctx, p3)
+		// expected verdict from the reference: does the owner's signature cover the CURRENT content?
+		want := sigOK(p3.Owner, refPayloadUnsigned(p3), p3.Signature)
+		if (verr == nil) != want {
+			ctx.Failf("ConsensusPayload.Verify says %v after mutation %s (arg %d), but by the reference digest the owner's signature covers the content: %v", verr, c.Mut, c.MutArg, want)
+		}
 		if !judged {
 			ctx.Label("unjudged:" + c.Mut)
 			if verr != nil {
@@ -968,7 +971,11 @@ func runC44(ctx *ev.Ctx, c c44Case) {
 		pay2.Data = b3
 		p3, err := payloadFromWire(ctx, payloadWire(pay2))
 		if err == nil {
-			if verifyPayload(ctx, p3) == nil {
+			verr := verifyPayload(ctx, p3)
+			if want := sigOK(p3.Owner, refPayloadUnsigned(p3), p3.Signature); (verr == nil) != want {
+				ctx.Failf("ConsensusPayload.Verify says %v after the inner %s was changed (%s), the reference digest says covered=%v", verr, c.Kind, c.Mut, want)
+			}
+			if verr == nil {
 				ctx.Failf("the sender's payload signature still verifies after the inner %s was changed (%s)", c.Kind, c.Mut)
 			}
 		}
@@ -992,6 +999,11 @@ func runC44(ctx *ev.Ctx, c c44Case) {
 		return
 	}
 	verr := verifyMsg(ctx, m3, verifyKey)
+	// expected verdict from the reference (own header digest, ontology-crypto directly), both
+	// directions and for every mutation, judged or not
+	if want, has := refVerify(m3, verifyKey); has && (verr == nil) != want {
+		ctx.Failf("%s.Verify says %v after mutation %s (arg %d), but by the reference digest the key's signature(s) cover the content: %v", c.Kind, verr, c.Mut, c.MutArg, want)
+	}
 	if !innerJudged {
 		// content the message's own signature does not cover (only the sender's payload signature
 		// does); the property text claims binding for the payload and the proposal signature only
@@ -1068,7 +1080,7 @@ func mutateProposal(ctx *ev.Ctx, c c44Case, x *vbft.VerifBlockProposalMsg, other
 			break
 		}
 		e := x.Block.EmptyBlock.Header
-		if bytes.Equal(e.SigData[0], blk.Header.SigData[0]) || x.Block.EmptyBlock.Hash() == blk.Hash() {
+		if bytes.Equal(e.SigData[0], blk.Header.SigData[0]) || refHeaderHash(x.Block.EmptyBlock.Header) == refHeaderHash(blk.Header) {
 			// the two blocks are identical (no user transactions): swapping changes nothing
 			*verifyKey = pubOf(other)
 			break
@@ -1076,8 +1088,7 @@ func mutateProposal(ctx *ev.Ctx, c c44Case, x *vbft.VerifBlockProposalMsg, other
 		e.SigData[0], blk.Header.SigData[0] = blk.Header.SigData[0], e.SigData[0]
 	case "hdr.resign-other":
 		// the empty block is replaced by one validly signed by somebody else
-		hash := target.Hash()
-		h.SigData[0] = signHash(other, hash)
+		h.SigData[0] = signHash(other, refHeaderHash(h))
 		h.Bookkeepers[0] = pubOf(other)
 	case "tx.add", "tx.add+root":
 		blk.Transactions = append(blk.Transactions, mkTx(uint32(c.MutArg), []byte{0xEE}))
